@@ -4,6 +4,7 @@ import Cinco.Format.Xml
 import Cinco.Format.Yaml
 import Cinco.Crypto.Secure
 import Cinco.Crypto.KeyFile
+import Cinco.Crypto.Digest
 import Cinco.Crypto.Aes256
 import Cinco.Crypto.Hashes
 /-
@@ -69,6 +70,21 @@ def leanUtf8 : Secure.Utf8 :=
 def realEnv : Secure.Env := { cipher := realCipher, utf8 := leanUtf8, aesAvailable := true }
 
 def bytesJson (b : List UInt8) : Json := Json.str (bytesToHex b)
+
+/-- the executable hashes and the digest sizes of the generated table -/
+def realHash : Digest.HashEnv :=
+  { H := fun alg d => match Hash.byName alg with | some h => h d | none => [],
+    size := fun alg => match Generated.challengeAlgorithms.find? (fun a => a.1 == alg) with
+      | some a => a.2.2
+      | none => 0 }
+
+def dvToJson (d : Digest.DigestValue) : Json :=
+  Json.mkObj [("salt", bytesJson d.salt), ("digest", bytesJson d.digest), ("alg", Json.str d.alg)]
+
+def tapeOfJson (j : Json) (k : String) : R (List (List UInt8)) := do
+  (← fArr j k).mapM (fun x => match x with
+    | .str h => hexToBytes h.toList
+    | _ => throw "bad tape entry")
 
 def kfFileToJson : KeyFile.File → Json
   | .absent => Json.str "absent"
@@ -193,6 +209,25 @@ def handle (cmd : String) (j : Json) : R Json := do
         let (s', o) := KeyFile.step acc.1 op
         (s', acc.2 ++ [Json.mkObj [("out", kfOutToJson o), ("state", kfStateToJson s')]])) (init, [])
       pure (Json.arr outs.toArray)
+  | "digest.create" => do
+      let salt ← match fieldOpt j "salt" with
+        | some (.str h) => do pure (some (← hexToBytes h.toList))
+        | _ => pure none
+      match Digest.create realHash (← fStr j "alg") (← fBytes j "plaintext") salt (← tapeOfJson j "tape") with
+      | .ok (dv, t) => pure (Json.mkObj [("out", "ok"), ("dv", dvToJson dv), ("tape_left", Json.num (JsonNumber.fromNat t.length))])
+      | .error .shortSalt => pure (Json.mkObj [("out", "short-salt")])
+      | .error .reject => pure (Json.mkObj [("out", "reject")])
+  | "digest.challenge" => do
+      let dv : Digest.DigestValue := ⟨← fBytes j "salt", ← fBytes j "digest", ← fStr j "alg"⟩
+      pure (Json.bool (Digest.challenge realHash dv (← fBytes j "plaintext")))
+  | "challenge.tobasic" => do
+      let dv : Digest.DigestValue := ⟨← fBytes j "salt", ← fBytes j "digest", ← fStr j "alg"⟩
+      pure (treeToJson (Digest.toBasic (some dv)))
+  | "challenge.topython" => do
+      match Digest.toPython realHash (← fStr j "alg") leanUtf8.enc (← treeOfJson (← field j "stored")) (← tapeOfJson j "tape") with
+      | .ok (some dv, _) => pure (Json.mkObj [("out", "ok"), ("dv", dvToJson dv)])
+      | .ok (none, _) => pure (Json.mkObj [("out", "ok"), ("dv", Json.null)])
+      | .error _ => pure (Json.mkObj [("out", "reject")])
   | "hash" => do
       match Hash.byName (← fStr j "alg") with
       | some h => pure (Json.mkObj [("digest", bytesJson (h (← fBytes j "data")))])
